@@ -332,6 +332,10 @@ class BackupNode(Entity):
         self._replications_applied = 0
         self._backup_reads = 0
         self._last_applied_seq = 0
+        # Highest sequence number accepted per key.  Replication messages for
+        # one key can overtake each other on the network; an older one must
+        # not overwrite a newer value.
+        self._applied_seq: dict[str, int] = {}
 
     def downstream_entities(self) -> list[Entity]:
         return [self._primary]
@@ -376,10 +380,17 @@ class BackupNode(Entity):
         ack_future: SimFuture | None = metadata.get("ack_future")
 
         # Apply locally
-        yield from self._store.put(key, value)
+        if seq >= self._applied_seq.get(key, 0):
+            self._applied_seq[key] = seq
+            yield from self._store.put(key, value)
+        else:
+            # Stale message: a newer write to this key arrived first.  Keep the
+            # newer value, but take as long as the write would have so that the
+            # ack is not sent before the newer value is in the store.
+            yield getattr(self._store, "write_latency", 0.0)
 
         self._replications_applied += 1
-        self._last_applied_seq = seq
+        self._last_applied_seq = max(self._last_applied_seq, seq)
 
         # Resolve ack future if present (for SEMI_SYNC/SYNC)
         if ack_future is not None:
